@@ -615,3 +615,48 @@ def rule_accepted_arities(rep: Report, repo: Repo, rule: str, kinds=None) -> Non
         rep.check(not missing and not extra, rule, WHERE, f"{k}: accepted arities {sorted(acc)}", msg,
                   witness=f"{k}() with {(missing or extra or [0])[0]} arguments")
     rep.floor(rule, 2 if kinds else 8, "command kinds with an arity table")
+
+
+# ----------------------------------------------------------------------
+def rule_file_level_commands(rep: Report, repo: Repo, rule: str) -> None:
+    """Every command is legal at file level, outside any function / macro / class block (a `cmake -P` script, the part of a
+    module behind its last endfunction()).  With both stacks empty and nothing pending, no command kind may make the
+    undocumented-command callback raise."""
+    from ..absint import SELF, State, show
+    from ..model import func_params
+    rep.rule(rule, "with an empty definition stack, an empty class stack and no pending declaration, enterCommand_invocation "
+                   "raises for no command kind (block-closing commands excepted: they are unbalanced there)")
+    lm = model(repo)
+    ci = repo.cls(lm.cls)
+    fn = ci.methods["enterCommand_invocation"]
+    closers = {"endfunction", "endmacro", "cpp_end_class"}
+    n = 0
+    for k in lm.kinds():
+        if k in closers:
+            continue
+        ev = lm._evaluator(k)
+        st = State()
+        for role in ("defstack", "classstack"):
+            name = lm.roles.get(role)
+            if name and not name.startswith("__"):
+                ref = st.alloc({"kind": "list", "items": []})
+                st.fields[(SELF, name)] = ref
+        aw = lm.roles.get("awaiting")
+        if aw:
+            st.fields[(SELF, aw)] = ("const", None)
+        ctx = ("sym", "ctx")
+        st.facts[("in", ctx, lm.consumed)] = False
+        try:
+            outs = ev.run_function(fn, {"self": SELF, func_params(fn)[1]: ctx}, st)
+        except AnalysisError:
+            raise
+        n += 1
+        crashes = []
+        for o in outs:
+            for e in o.effects[len(st.effects):]:
+                if e[0] == "crash" and e[1] in ("IndexError",):
+                    crashes.append(f"{e[1]}: {e[2]}")
+        rep.check(not crashes, rule, WHERE, f"{k}() at file level",
+                  f"{k}() outside any function/macro/class makes the listener raise ({'; '.join(sorted(set(crashes)))[:120]}): a valid "
+                  f"script is rejected", witness=f"{k}(...) as the first command of a file")
+    rep.floor(rule, 8, "command kinds at file level")
